@@ -83,6 +83,7 @@ type Engine struct {
 	elemObj  map[any]AV // element summaries per memory object
 	guarded  map[fieldKey]bool // the field is compared in some branch condition of analysed code
 	outcomeMemo map[outcomeKey][]AV
+	localStructMemo map[*ssa.Alloc]bool
 }
 
 type callSite struct {
@@ -511,6 +512,11 @@ func (e *Engine) evalFunc(s *fstate, round int) {
 					}
 					continue
 				}
+				if fa, ok := x.Addr.(*ssa.FieldAddr); ok {
+					if al, ok := fa.X.(*ssa.Alloc); ok && e.localStruct(al) {
+						continue // published where the finished struct is copied out (below)
+					}
+				}
 				if k, ok := fieldKeyOfAddr(x.Addr); ok {
 					nv := e.storeContribution(s, x)
 					old, had := e.fields[k]
@@ -526,6 +532,37 @@ func (e *Engine) evalFunc(s *fstate, round int) {
 					j := Join(old, nv)
 					if !had || !Equal(j, old) {
 						e.fields[k] = e.widenSummary(old, j, x.Val.Type(), round)
+						e.changed = true
+					}
+				}
+			case *ssa.UnOp:
+				// a local struct variable copied out as a whole (return g / f(g) / x.t = g): its fields
+				// carry, into the summaries, what they hold at this point — not every intermediate value
+				al, ok := x.X.(*ssa.Alloc)
+				if !ok || x.Op != token.MUL || !e.localStruct(al) {
+					continue
+				}
+				tn := namedStruct(al.Type())
+				if tn == nil {
+					continue
+				}
+				st := tn.Type().Underlying().(*types.Struct)
+				for f := 0; f < st.NumFields(); f++ {
+					if !isIntType(st.Field(f).Type()) {
+						continue
+					}
+					nv, ok := e.localFieldAt(s, al, f, b, instrIndex(x), st.Field(f).Type())
+					if !ok {
+						nv = e.top(st.Field(f).Type())
+					}
+					k := fieldKey{tn, f}
+					old, had := e.fields[k]
+					if !had {
+						old = Bottom()
+					}
+					j := Join(old, nv)
+					if !had || !Equal(j, old) {
+						e.fields[k] = e.widenSummary(old, j, st.Field(f).Type(), round)
 						e.changed = true
 					}
 				}
@@ -1008,6 +1045,11 @@ func (e *Engine) load(s *fstate, u *ssa.UnOp, b *ssa.BasicBlock) AV {
 		if tn := namedStruct(a.X.Type()); tn != nil {
 			k := fieldKey{tn, a.Field}
 			fv := e.fieldVal(k, u.Type(), fieldIsTainted(e, tn, a.Field))
+			if al, ok := a.X.(*ssa.Alloc); ok && e.localStruct(al) {
+				if rv, ok := e.localFieldAt(s, al, a.Field, u.Block(), instrIndex(u), u.Type()); ok {
+					return e.clip(rv, u.Type())
+				}
+			}
 			if st := e.forwardedStore(s, u, a, k); st != nil {
 				sv := e.at(s, st.Val, b, 2)
 				if !sv.IsBottom() {
@@ -1114,6 +1156,165 @@ func rootFieldAddr(v ssa.Value) (*ssa.FieldAddr, bool) {
 		}
 	}
 	return nil, false
+}
+
+// localStruct: al is a struct-typed local variable that lives only in this function's frame: its
+// address is used for field accesses and whole-value loads / stores only (never passed, stored,
+// returned or captured), and its fields are accessed directly (no nested addressing).
+func (e *Engine) localStruct(al *ssa.Alloc) bool {
+	if r, ok := e.localStructMemo[al]; ok {
+		return r
+	}
+	if e.localStructMemo == nil {
+		e.localStructMemo = map[*ssa.Alloc]bool{}
+	}
+	ok := !al.Heap && namedStruct(al.Type()) != nil && al.Referrers() != nil
+	if ok {
+		for _, r := range *al.Referrers() {
+			switch x := r.(type) {
+			case *ssa.FieldAddr:
+				if x.Referrers() == nil {
+					continue
+				}
+				for _, u := range *x.Referrers() {
+					switch y := u.(type) {
+					case *ssa.Store:
+						if y.Addr != ssa.Value(x) {
+							ok = false
+						}
+					case *ssa.UnOp:
+						if y.Op != token.MUL {
+							ok = false
+						}
+					case *ssa.DebugRef:
+					default:
+						ok = false
+					}
+				}
+			case *ssa.UnOp:
+				if x.Op != token.MUL {
+					ok = false
+				}
+			case *ssa.Store:
+				if x.Addr != ssa.Value(al) {
+					ok = false
+				}
+			case *ssa.DebugRef:
+			default:
+				ok = false
+			}
+		}
+	}
+	e.localStructMemo[al] = ok
+	return ok
+}
+
+// localFieldAt: the value field f of local struct al holds just before instruction idx of block b —
+// a small flow-sensitive reaching-stores walk: the last store to the field on each path, refined by
+// the branch conditions that tested a load of the field while that store was still the reaching one
+// (g.w = p.W; if g.w == 0 { g.w = p.Width }; use g.w). ok=false: not decidable this way (loop-carried
+// stores, whole-struct assignment), the caller falls back to the field summary.
+func (e *Engine) localFieldAt(s *fstate, al *ssa.Alloc, f int, b *ssa.BasicBlock, idx int, t types.Type) (AV, bool) {
+	type key struct {
+		b   *ssa.BasicBlock
+		idx int
+	}
+	visiting := map[*ssa.BasicBlock]bool{}
+	memo := map[*ssa.BasicBlock]AV{}
+	fail := false
+	isFieldStore := func(ins ssa.Instruction) (*ssa.Store, bool) {
+		st, ok := ins.(*ssa.Store)
+		if !ok {
+			return nil, false
+		}
+		if fa, ok := st.Addr.(*ssa.FieldAddr); ok && fa.X == ssa.Value(al) && fa.Field == f {
+			return st, true
+		}
+		if st.Addr == ssa.Value(al) {
+			fail = true // whole-struct assignment
+		}
+		return nil, false
+	}
+	var atEnd func(x *ssa.BasicBlock) AV
+	var before func(x *ssa.BasicBlock, i int) AV
+	before = func(x *ssa.BasicBlock, i int) AV {
+		for j := i - 1; j >= 0; j-- {
+			if st, ok := isFieldStore(x.Instrs[j]); ok {
+				return e.at(s, st.Val, x, 2)
+			}
+			if fail {
+				return Bottom()
+			}
+		}
+		if x == al.Block() || len(x.Preds) == 0 {
+			return Const(0) // the variable starts zeroed
+		}
+		r := Bottom()
+		for _, p := range x.Preds {
+			v := atEnd(p)
+			if fail {
+				return Bottom()
+			}
+			// the edge p -> x may have tested a load of this very field
+			if cond, ok := ifCondOf(p).(*ssa.BinOp); ok && len(p.Succs) == 2 && p.Succs[0] != p.Succs[1] {
+				for side, opnd := range []ssa.Value{cond.X, cond.Y} {
+					ld, ok := e.stripWiden(opnd).(*ssa.UnOp)
+					if !ok || ld.Op != token.MUL || ld.Block() != p {
+						continue
+					}
+					fa, ok := ld.X.(*ssa.FieldAddr)
+					if !ok || fa.X != ssa.Value(al) || fa.Field != f {
+						continue
+					}
+					// no store to the field between the load and the end of p
+					clean := true
+					for j := instrIndex(ld) + 1; j < len(p.Instrs); j++ {
+						if _, isSt := isFieldStore(p.Instrs[j]); isSt {
+							clean = false
+						}
+					}
+					if !clean {
+						continue
+					}
+					op := cond.Op
+					if p.Succs[0] != x {
+						op = negate(op)
+					}
+					other := cond.Y
+					if side == 1 {
+						other = cond.X
+						op = flip(op)
+					}
+					switch op {
+					case token.LSS, token.LEQ, token.GTR, token.GEQ, token.EQL, token.NEQ:
+						v = refineCmp(v, op, e.at(s, other, p, 2))
+					}
+				}
+			}
+			r = Join(r, v)
+		}
+		return r
+	}
+	atEnd = func(x *ssa.BasicBlock) AV {
+		if v, ok := memo[x]; ok {
+			return v
+		}
+		if visiting[x] {
+			fail = true // a loop carries the field: not handled here
+			return Bottom()
+		}
+		visiting[x] = true
+		v := before(x, len(x.Instrs))
+		visiting[x] = false
+		memo[x] = v
+		return v
+	}
+	_ = key{}
+	v := before(b, idx)
+	if fail || v.IsBottom() {
+		return AV{}, false
+	}
+	return v, true
 }
 
 // storeContribution: what a store adds to a field summary. Stores into element positions of an
@@ -1933,6 +2134,263 @@ func (e *Engine) Analysed(fn *ssa.Function) bool { return e.fs[fn] != nil }
 // may carry a nil error, from the guards fn applies to its loads of that field. ok=false when fn
 // never loads the field.
 func (e *Engine) FieldPostcondition(fn *ssa.Function, key string) (AV, bool) {
+	return e.fieldPostcondition(fn, key, 0)
+}
+
+// subValidators: functions that have certainly run, and returned a nil error, whenever fn returns
+// without failing: static calls whose error result is tested with every failing side leaving fn with
+// a failure, and the entries of a local table of check functions that fn walks completely
+// (for _, check := range checks { if err := check(p); err != nil { return err } }).
+func (e *Engine) subValidators(fn *ssa.Function) []*ssa.Function {
+	var out []*ssa.Function
+	okReturns := func() []*ssa.BasicBlock {
+		var bs []*ssa.BasicBlock
+		for _, b := range fn.Blocks {
+			if len(b.Instrs) == 0 {
+				continue
+			}
+			if ret, ok := b.Instrs[len(b.Instrs)-1].(*ssa.Return); ok && !isFailReturn(fn, ret, b) {
+				bs = append(bs, b)
+			}
+		}
+		return bs
+	}()
+	// failing side of `err != nil` leaves only through failure returns
+	failsOnly := func(from *ssa.BasicBlock, avoid *ssa.BasicBlock) bool {
+		seen := map[*ssa.BasicBlock]bool{}
+		ok, any := true, false
+		var walk func(b *ssa.BasicBlock)
+		walk = func(b *ssa.BasicBlock) {
+			if seen[b] || b == avoid {
+				return
+			}
+			seen[b] = true
+			if len(b.Instrs) > 0 {
+				if ret, isRet := b.Instrs[len(b.Instrs)-1].(*ssa.Return); isRet {
+					any = true
+					if !isFailReturn(fn, ret, b) {
+						ok = false
+					}
+					return
+				}
+			}
+			for _, sc := range b.Succs {
+				walk(sc)
+			}
+		}
+		walk(from)
+		return ok && any
+	}
+	errTested := func(call *ssa.Call) (*ssa.BasicBlock, bool) {
+		// the call's error result is compared with nil in the call's block, failing side fails
+		var errv ssa.Value = call
+		if _, isTuple := call.Type().(*types.Tuple); isTuple {
+			errv = nil
+			if call.Referrers() != nil {
+				for _, r := range *call.Referrers() {
+					if ex, ok := r.(*ssa.Extract); ok && isErrorType(ex.Type()) {
+						errv = ex
+					}
+				}
+			}
+		}
+		if errv == nil || !isErrorType(errv.Type()) {
+			return nil, false
+		}
+		b := call.Block()
+		cond, ok := ifCondOf(b).(*ssa.BinOp)
+		if !ok || len(b.Succs) != 2 || (cond.X != errv && cond.Y != errv) {
+			return nil, false
+		}
+		var failSide, okSide *ssa.BasicBlock
+		switch cond.Op {
+		case token.NEQ:
+			failSide, okSide = b.Succs[0], b.Succs[1]
+		case token.EQL:
+			failSide, okSide = b.Succs[1], b.Succs[0]
+		default:
+			return nil, false
+		}
+		if !failsOnly(failSide, okSide) {
+			return nil, false
+		}
+		return okSide, true
+	}
+	loops := map[*ssa.BasicBlock]bool{} // headers
+	for _, b := range fn.Blocks {
+		for _, sc := range b.Succs {
+			if sc.Dominates(b) {
+				loops[sc] = true
+			}
+		}
+	}
+	inLoop := func(b *ssa.BasicBlock) *ssa.BasicBlock {
+		for h := range loops {
+			if h.Dominates(b) {
+				// b is in the loop of h if some latch is reachable... approximate: h dominates b and b reaches h
+				seen := map[*ssa.BasicBlock]bool{}
+				var reach func(x *ssa.BasicBlock) bool
+				reach = func(x *ssa.BasicBlock) bool {
+					if x == h {
+						return true
+					}
+					if seen[x] {
+						return false
+					}
+					seen[x] = true
+					for _, sc := range x.Succs {
+						if reach(sc) {
+							return true
+						}
+					}
+					return false
+				}
+				for _, sc := range b.Succs {
+					if reach(sc) {
+						return h
+					}
+				}
+			}
+		}
+		return nil
+	}
+	for _, b := range fn.Blocks {
+		for _, ins := range b.Instrs {
+			call, ok := ins.(*ssa.Call)
+			if !ok {
+				continue
+			}
+			if _, isB := call.Call.Value.(*ssa.Builtin); isB || call.Call.IsInvoke() {
+				continue
+			}
+			if _, tested := errTested(call); !tested {
+				continue
+			}
+			h := inLoop(b)
+			if sc := call.Call.StaticCallee(); sc != nil {
+				if h != nil || sc.Blocks == nil {
+					continue
+				}
+				dom := true
+				for _, rb := range okReturns {
+					if !b.Dominates(rb) {
+						dom = false
+					}
+				}
+				if dom && len(okReturns) > 0 {
+					out = append(out, sc)
+				}
+				continue
+			}
+			// dynamic call inside a loop: callee value loaded from a local table walked by range
+			if h == nil {
+				continue
+			}
+			// t = table[i] — through an element address (slice / addressable array) or on a copy of
+			// the array value (range over an array literal)
+			var base, index ssa.Value
+			switch v := call.Call.Value.(type) {
+			case *ssa.UnOp:
+				if ia, ok := v.X.(*ssa.IndexAddr); ok && v.Op == token.MUL {
+					base, index = ia.X, ia.Index
+				}
+			case *ssa.Index:
+				base, index = v.X, v.Index
+				if cp, ok := base.(*ssa.UnOp); ok && cp.Op == token.MUL {
+					base = cp.X
+				}
+			}
+			if base == nil {
+				continue
+			}
+			if sl, ok := base.(*ssa.Slice); ok {
+				base = sl.X
+			}
+			al, ok := base.(*ssa.Alloc)
+			if !ok || al.Referrers() == nil {
+				continue
+			}
+			at, ok := al.Type().(*types.Pointer).Elem().Underlying().(*types.Array)
+			if !ok {
+				continue
+			}
+			// range-index loop over the whole table: index = phi(-1, index+1), tested index+1 < len
+			inc, ok := index.(*ssa.BinOp)
+			if !ok || inc.Op != token.ADD {
+				continue
+			}
+			phi, ok := inc.X.(*ssa.Phi)
+			k1, ok1 := inc.Y.(*ssa.Const)
+			if !ok || !ok1 || k1.Value == nil || k1.Int64() != 1 || phi.Block() != h {
+				continue
+			}
+			whole := false
+			for i, ed := range phi.Edges {
+				if !h.Dominates(h.Preds[i]) || h.Preds[i] == h && false {
+					if k, ok := ed.(*ssa.Const); ok && k.Value != nil && k.Int64() == -1 {
+						whole = true
+					}
+				}
+			}
+			cond, ok := ifCondOf(inc.Block()).(*ssa.BinOp)
+			if !whole || !ok || cond.Op != token.LSS || cond.X != ssa.Value(inc) {
+				continue
+			}
+			if k, ok := cond.Y.(*ssa.Const); !ok || k.Value == nil || k.Int64() != at.Len() {
+				continue
+			}
+			// the loop's normal exit must lead to the ok returns, and the table entries are constants
+			entries := map[int64]*ssa.Function{}
+			cleanTable := true
+			for _, r := range *al.Referrers() {
+				eia, ok := r.(*ssa.IndexAddr)
+				if !ok || eia.Referrers() == nil {
+					continue
+				}
+				for _, u := range *eia.Referrers() {
+					st, ok := u.(*ssa.Store)
+					if !ok {
+						continue
+					}
+					ki, ok := eia.Index.(*ssa.Const)
+					f, ok2 := st.Val.(*ssa.Function)
+					if !ok || !ok2 || ki.Value == nil {
+						cleanTable = false
+						continue
+					}
+					entries[ki.Int64()] = f
+				}
+			}
+			if !cleanTable || int64(len(entries)) != at.Len() {
+				continue
+			}
+			for i := int64(0); i < at.Len(); i++ {
+				out = append(out, entries[i])
+			}
+		}
+	}
+	return out
+}
+
+func (e *Engine) fieldPostcondition(fn *ssa.Function, key string, depth int) (AV, bool) {
+	own, okOwn := e.ownFieldPostcondition(fn, key)
+	if depth >= 2 {
+		return own, okOwn
+	}
+	for _, g := range e.subValidators(fn) {
+		if pv, ok := e.fieldPostcondition(g, key, depth+1); ok {
+			if !okOwn {
+				own, okOwn = pv, true
+			} else if m := meetAV(own, pv); !m.IsBottom() {
+				m.Taint, m.Raw = true, true
+				own = m
+			}
+		}
+	}
+	return own, okOwn
+}
+
+func (e *Engine) ownFieldPostcondition(fn *ssa.Function, key string) (AV, bool) {
 	s := e.fs[fn]
 	if s == nil {
 		return AV{}, false
